@@ -163,6 +163,21 @@ def run_case(case):
         if fc3 is not None:
             chk("free/fieldwise", all(getattr(fc3, f) == da[f] - db[f] for f in FIELDS))
             guarded("free-str", lambda: str(fc3))
+    # the augmented forms are the same operations: same result, and the object the running total STARTED from (still
+    # referenced elsewhere) is an operand like any other - never modified
+    def aug(op):
+        acc = a
+        if op == "+":
+            acc += b
+        else:
+            acc -= b
+        return acc
+    for op, want in (("+", {f: da[f] + db[f] for f in FIELDS}), ("-", {f: da[f] - db[f] for f in FIELDS})):
+        acc = guarded("augmented" + op, lambda: aug(op))
+        if acc is not None:
+            chk(f"augmented{op}=/fieldwise", fd(acc) == want, f"acc=a; acc {op}= b -> {fd(acc)}")
+            chk(f"augmented{op}=/operand-modified", fd(a) == da and fd(b) == db, f"after acc {op}= b: a={fd(a)} b={fd(b)}")
+            a.__dict__.update(da)      # (restore, so that the remaining clauses see the generated operand)
     # operands untouched
     chk("operands-unchanged", fd(a) == da and fd(b) == db and fd(c) == dc,
         f"after: a={fd(a)} b={fd(b)} c={fd(c)}")
